@@ -309,3 +309,95 @@ Example C17_seal_nonvacuous :
   /\ s_ids k = s_ids s /\ nth 2 (s_pos k) None = Some (0, 0%N) /\ length (s_blocks k) = 3
   /\ sealed_fetch s (7, 7)%N = None.
 Proof. vm_compute. repeat split. Qed.
+
+(* ================================================================== concurrent index workers *)
+From Coq Require Import Permutation.
+From C17 Require Import ModelConc ProofsConc.
+
+(* First writer wins under EVERY interleaving. k index workers (k = length qs), each with an arbitrary
+   queue of well formed bulks (overlapping, repeated, identical — no hypothesis relating them), run
+   under an arbitrary schedule of atomic steps (ModelConc: take = DocBlocks.Append, set = the whole
+   SetMultiple under its write lock, ids = AppendIDs, put = PutLIDsInQueue of one token, stats =
+   UpdateStats). When all workers are done:
+   - the SetMultiple critical sections ran in an order sg that is a permutation of the deliveries;
+   - every call got back exactly the IDs that no earlier call of that order carried
+     (map snd log = the repeat-free history of sg), so every delivered ID was returned to EXACTLY ONE
+     call: the log of returned lists splits as l1 ++ acc :: l2 with the ID in acc and in no list of
+     l1 ++ l2;
+   - the LID table is the system entry followed by the accepted metas tab, a permutation of the first
+     deliveries of sg — each first-delivered meta holds exactly one LID; every token's queue is a
+     permutation of the LIDs of the metas of the table carrying it (once per occurrence); the
+     position map holds exactly the delivered IDs;
+   - DocsTotal, From and To EQUAL those of the sequential run of the bulks in the order sg, and the
+     LID table is a permutation of that run's; hence (C17_idempotent) they equal those of the
+     repeat-free history; DocsTotal = number of first deliveries.
+   (Not proved here: that search results are invariant under the permutation of LIDs and of the
+   queues — sorted by ID and counted, they are; compared on every run by class conc-steps. Fetch
+   under interleavings is compared by the run only.) *)
+Theorem C17_concurrent_first_writer_wins :
+  forall (qs : list (list cbulk)) (sched : list nat),
+    Forall (Forall bulk_wf) qs ->
+    let s := conc_run sched (conc_init qs) in
+    all_done s = true ->
+    let a := cc_a s in let sg := sigma s in
+    let K := first_deliveries (map (map fst) sg) in
+    Permutation sg (concat qs) /\
+    map snd (cc_log s) = map (map m_id) (dedup_first (map (map fst) sg)) /\
+    (forall i, In i (map m_id (concat (map (map fst) sg))) ->
+       exists l1 acc l2, map snd (cc_log s) = l1 ++ acc :: l2 /\ In i acc /\
+                         (forall acc', In acc' (l1 ++ l2) -> ~ In i acc')) /\
+    a_ids a = sys_id :: map m_id (cc_tab s) /\ Permutation (cc_tab s) K /\
+    (forall t, Permutation (tok_lids a t) (postings t 1 (map m_toks (cc_tab s)))) /\
+    (forall i, lookup_pos i (a_posm a) <> None <-> In i (map m_id K)) /\
+    let q := run_active sg in let q' := run_active (dedupb sg) in
+    (a_total a = a_total q /\ a_from a = a_from q /\ a_to a = a_to q /\ Permutation (a_ids a) (a_ids q)) /\
+    (a_total a = a_total q' /\ a_from a = a_from q' /\ a_to a = a_to q' /\ Permutation (a_ids a) (a_ids q')) /\
+    a_total a = N.of_nat (length K).
+Proof. exact conc_first_writer_wins. Qed.
+Print Assumptions C17_concurrent_first_writer_wins.
+
+(* non-vacuity: worker 0 receives bulk 1 = [A + nested; B] and then [C; A; B], worker 1 receives bulk 1
+   again at the same time; their steps alternate. Hypotheses hold, every worker finishes; worker 0's
+   SetMultiple ran first and got A, A(nested), B back, worker 1 got nothing, the third call got C. *)
+Definition ex_qs : list (list cbulk) :=
+  [[pairs_of [ex_dA 0%N; ex_dB 0%N]; pairs_of [ex_dC; ex_dA 0%N; ex_dB 0%N]]; [pairs_of [ex_dA 0%N; ex_dB 0%N]]].
+Definition ex_sched : list nat :=
+  [0; 1; 0; 1; 0; 1; 0; 1; 0; 1; 0; 1; 0; 1; 0; 1; 0; 0; 0; 0; 0; 0; 0; 0; 0].
+
+Example C17_concurrent_hypotheses_hold :
+  Forall (Forall bulk_wf) ex_qs /\ all_done (conc_run ex_sched (conc_init ex_qs)) = true.
+Proof.
+  assert (W : forall ds, NoDup (map d_id ds) -> Forall (fun d => d_size d <> 0%N) ds -> bulk_wf (pairs_of ds))
+    by (intros ds A B; exists ds; split; [split; assumption|reflexivity]).
+  split; [|vm_compute; reflexivity].
+  repeat constructor.
+  - apply (W [ex_dA 0%N; ex_dB 0%N]); repeat constructor; simpl; intuition discriminate.
+  - apply (W [ex_dC; ex_dA 0%N; ex_dB 0%N]); repeat constructor; simpl; intuition discriminate.
+  - apply (W [ex_dA 0%N; ex_dB 0%N]); repeat constructor; simpl; intuition discriminate.
+Qed.
+
+Example C17_concurrent_nonvacuous :
+  let s := conc_run ex_sched (conc_init ex_qs) in
+  map snd (cc_log s) = [[(1005, 1); (1005, 1); (1010, 2)]; []; [(1001, 3)]]%N
+  /\ a_ids (cc_a s) = [sys_id; (1005, 1); (1005, 1); (1010, 2); (1001, 3)]%N
+  /\ a_total (cc_a s) = 4%N /\ tok_lids (cc_a s) 2 = [2; 3] /\ length (a_blocks (cc_a s)) = 3.
+Proof. vm_compute. repeat split. Qed.
+
+(* the variant with SetMultiple cut into a lookup under the read lock and a store under the write
+   lock (ModelConc.swstep), refuted: two workers, the same one-document bulk, both lookups before
+   either store — both calls get the ID back, the document holds two LIDs, DocsTotal = 2 *)
+Example C17_split_setmultiple_refuted :
+  exists qs sched,
+    Forall (Forall bulk_wf) qs /\
+    let s := sconc_run sched (sconc_init qs) in
+    forallb swdone (sc_ws s) = true /\
+    map snd (sc_log s) = [[(1010, 2)]; [(1010, 2)]]%N /\
+    a_ids (sc_a s) = [sys_id; (1010, 2); (1010, 2)]%N /\
+    a_total (sc_a s) = 2%N /\
+    length (first_deliveries (map (map fst) (concat qs))) = 1.
+Proof.
+  exists [[pairs_of [ex_dB 0%N]]; [pairs_of [ex_dB 0%N]]], [0; 1; 0; 1; 0; 1; 0; 0; 0; 0; 1; 1; 1; 1].
+  split.
+  - repeat constructor; exists [ex_dB 0%N]; (split; [split; repeat constructor; simpl; intuition discriminate|reflexivity]).
+  - vm_compute. repeat split.
+Qed.
